@@ -40,6 +40,8 @@ type bodyRun struct {
 	prefix   string
 	assertHits map[int]int
 	writeRanges []writeRange
+	cells map[types.Object]ssa.Value
+	cellsByName map[string][]*ssa.Alloc
 }
 
 func mkKS(key, sort string) keySort { return keySort{key: key, sort: sort} }
@@ -416,6 +418,36 @@ func (br *bodyRun) havocLoop(li *loopInfo, st *State) {
 			st.heap[k.key] = nh
 			continue
 		}
+		if strings.HasPrefix(k.key, "cell|") && len(k.regions) == 0 && len(k.objs) == 0 && !k.freshOnly && !fc.isStableKey(k.key) && br.loopCannotReachCells(li) {
+			// the loop writes this cell type only through calls that cannot have the address of
+			// this function's own variables: those keep their value
+			fc.keySort[k.key] = k.sort
+			old := fc.heapSym(st, k.key, k.sort)
+			fc.havocKey(st, k.key, k.sort)
+			h := st.heap[k.key]
+			for _, b := range br.fn.Blocks {
+				for _, ins := range b.Instrs {
+					a, ok := ins.(*ssa.Alloc)
+					if !ok || a.Comment == "" || br.storedInLoop(li, a) {
+						continue
+					}
+					p, ok := fc.vals[a].(PtrV)
+					if !ok || p.Kind != PObj || len(p.Path) != 0 {
+						continue
+					}
+					if _, isStruct := p.Root.Underlying().(*types.Struct); isStruct {
+						continue
+					}
+					pre := "cell|" + typeName(p.Root)
+					if !strings.HasPrefix(k.key, pre) || (len(k.key) > len(pre) && k.key[len(pre)] != '#' && k.key[len(pre)] != '.') {
+						continue
+					}
+					h = app("store", h, p.Ref, app("select", old, p.Ref))
+				}
+			}
+			st.heap[k.key] = fc.smt.defineAlways("H_"+k.key, k.sort, h)
+			continue
+		}
 		if len(k.objs) > 0 && !fc.isStableKey(k.key) {
 			fc.keySort[k.key] = k.sort
 			h := fc.heapSym(st, k.key, k.sort)
@@ -729,6 +761,98 @@ func (br *bodyRun) envAt(b *ssa.BasicBlock, idx int, st *State, phiOv map[*ssa.P
 	return env
 }
 
+// storedInLoop: some instruction of the loop stores directly into (a field of) the local a.
+func (br *bodyRun) storedInLoop(li *loopInfo, a *ssa.Alloc) bool {
+	for b := range li.blocks {
+		for _, ins := range b.Instrs {
+			if s, ok := ins.(*ssa.Store); ok {
+				base := s.Addr
+				for {
+					if fa, ok := base.(*ssa.FieldAddr); ok {
+						base = fa.X
+						continue
+					}
+					break
+				}
+				if base == a {
+					return true
+				}
+			}
+		}
+	}
+	return false
+}
+
+// loopCannotReachCells: no call in the loop can have the address of this function's variables
+// (no call to one of its closures, no dynamic call, no function value or cell pointer passed).
+func (br *bodyRun) loopCannotReachCells(li *loopInfo) bool {
+	for b := range li.blocks {
+		for _, ins := range b.Instrs {
+			ci, ok := ins.(ssa.CallInstruction)
+			if !ok {
+				continue
+			}
+			c := ci.Common()
+			if !c.IsInvoke() {
+				switch f := c.Value.(type) {
+				case *ssa.Builtin:
+				case *ssa.Function:
+					if f.Parent() != nil {
+						return false
+					}
+				default:
+					return false
+				}
+			}
+			for _, a := range c.Args {
+				switch a.Type().Underlying().(type) {
+				case *types.Signature:
+					return false
+				case *types.Pointer:
+					if _, isAlloc := a.(*ssa.Alloc); isAlloc {
+						return false
+					}
+				}
+			}
+		}
+	}
+	return true
+}
+
+// cellOf: the Alloc holding a source variable that lives in memory, if any.
+func (br *bodyRun) cellOf(o types.Object) ssa.Value {
+	if br.cells == nil {
+		br.cells = map[types.Object]ssa.Value{}
+		for _, b := range br.fn.Blocks {
+			for _, ins := range b.Instrs {
+				if dr, ok := ins.(*ssa.DebugRef); ok && dr.IsAddr && dr.Object() != nil {
+					if a, ok := dr.X.(*ssa.Alloc); ok {
+						br.cells[dr.Object()] = a
+					}
+				}
+			}
+		}
+		br.cellsByName = map[string][]*ssa.Alloc{}
+		for _, b := range br.fn.Blocks {
+			for _, ins := range b.Instrs {
+				if a, ok := ins.(*ssa.Alloc); ok && a.Comment != "" {
+					br.cellsByName[a.Comment] = append(br.cellsByName[a.Comment], a)
+				}
+			}
+		}
+	}
+	if c, ok := br.cells[o]; ok {
+		return c
+	}
+	// go/ssa names the cell of a variable that lives in memory after the variable
+	if as := br.cellsByName[o.Name()]; len(as) == 1 {
+		if pt, ok := as[0].Type().(*types.Pointer); ok && types.Identical(pt.Elem(), o.Type()) {
+			return as[0]
+		}
+	}
+	return nil
+}
+
 func (br *bodyRun) resolveAt(b *ssa.BasicBlock, idx int, name string, st *State, phiOv map[*ssa.Phi]Val) (TV, bool) {
 	fc := br.fc
 	// "name#k": the loop-carried variable `name` of loop k (its header phi)
@@ -772,6 +896,13 @@ func (br *bodyRun) resolveAt(b *ssa.BasicBlock, idx int, name string, st *State,
 							continue
 						}
 						return TV{fc.load(st, p, o.Type()), o.Type()}, true
+					}
+					// a variable that lives in memory (captured by a closure, address taken): its
+					// current value is what its cell holds, not the value of this occurrence
+					if cell := br.cellOf(o); cell != nil {
+						if p, ok := fc.vals[cell].(PtrV); ok {
+							return TV{fc.load(st, p, o.Type()), o.Type()}, true
+						}
 					}
 					v := fc.val(x.X)
 					if ph, ok := x.X.(*ssa.Phi); ok && phiOv != nil {
